@@ -41,3 +41,28 @@ package otp
 //@   ensures[C16] unknown_vs_wrong: each Respond(?code, ?page, ?data) =>
 //@       (code == 200 && page == PageLogin && maplen(data) == 1 && mapget(data, DataErr) == loc(o.Authboss, TxtInvalidCredentials) &&
 //@        !emits Sess.Put(_, _) && !emits Sess.Del(_) && !emits Cook.Put(_, _) && !emits Cook.Del(_) && !emits Redirect(_))
+//@
+//@ func (*OTP).AddPost
+//@   property C12 C13 C17 C18
+//@   -- C12: at most five one-time passwords per account: one is only added below the limit, what
+//@   -- is stored is the sha512 of the generated value, and it goes to the request's own user
+//@   ensures[C12] max_five: each Store.Save(?s) -> _ => otp_count(old(OTPs(s))) < 5
+//@   ensures[C12,C13] owner_only: each Store.Save(?s) -> _ =>
+//@       ite(ctxuser(r) != nil, s == ctxuser(r), before Store.Load(?p) -> (?u, ?le) :: le == nil && u == s &&
+//@           p == ite(ctxpid(r) != nil, asstring(ctxpid(r)), sess(r, "uid")))
+//@   ensures[C12] never_logs_in: !emits Sess.Put(_, _)
+//@   ensures[C17] no_secret_leak: secrets_clean
+//@   ensures[C18] save_error_outcome: each Store.Save(_) -> ?e => e != nil ==> (result == e && !emits Respond(_, _, _))
+//@
+//@ func (*OTP).ClearPost
+//@   property C12 C17 C18
+//@   ensures[C12] clears_all: each Store.Save(?s) -> _ => OTPs(s) == ""
+//@   ensures[C12] never_logs_in: !emits Sess.Put(_, _)
+//@   ensures[C17] no_secret_leak: secrets_clean
+//@   ensures[C18] save_error_outcome: each Store.Save(_) -> ?e => e != nil ==> (result == e && !emits Respond(_, _, _))
+//@
+//@ func generateOTP
+//@   property C12 C17
+//@   option summary callers use this contract, not the body
+//@   option trusted body not verified (hex formatting of 16 random bytes via fmt %x and a base64 Encode into a byte buffer)
+//@   ensures hash_of_otp: result.2 == nil ==> result.1 == b64std(sha512(result.0))
